@@ -1,27 +1,28 @@
-(** C07 -- the general theorems of CodegenProofs.v instantiated at the facts of the repaired
-    tree ([fixed_facts]; PropsC07.v pins the regenerated facts to them), and machine-checked
-    witnesses (vm_compute, rational instance of CgInst.v):
+(** C07 -- the general theorems of CodegenProofs.v instantiated at the facts of the tree
+    ([C07_facts ia ut], for EVERY value of the two switchable facts -- PropsC07.v pins the
+    regenerated facts to [C07_facts C07_expected_ia C07_expected_untouched], ExpectedFacts.v), and
+    machine-checked witnesses (vm_compute, rational instance of CgInst.v):
       - for every recorded finding (behaviour the current code still has): [..._refuted];
       - for every repaired defect, with the facts of the snapshot ([snapshot_facts]): the old
         fact value makes the property fail -- kept as regression witnesses. *)
 From Coq Require Import List NArith ZArith QArith Bool Lia.
 From MxlBase Require Import ListX.
-From Codegen Require Import Codegen CodegenSpec CgInst CodegenProofs.
+From Codegen Require Import Codegen CodegenSpec ExpectedFacts CgInst CodegenProofs.
 Import ListNotations.
-
-Definition fixed_facts : facts :=
-  mkFacts (mkLF AsgName DsList RetBracket false) (mkLF AsgName DsList RetBracket false)
-          (mkLF AsgName DsList RetBracket true) (mkLF AsgLitK DsSplat RetBare true)
-          OrdDep true true true true.
 
 (** what the extractor read from the snapshot (before fixes/C07-*.diff) *)
 Definition snapshot_facts : facts :=
   mkFacts (mkLF AsgName DsBare RetBare false) (mkLF AsgName DsList RetBracket false)
           (mkLF AsgName DsList RetBracket true) (mkLF AsgLitK DsSplat RetBare true)
-          OrdDecl false true true true.
+          OrdDecl false true true true IaDropped UtDropped.
+
+Lemma expected_ia_ok : C07_expected_ia <> IaUnknown.
+Proof. discriminate. Qed.
+Lemma expected_ut_ok : C07_expected_untouched <> UtUnknown.
+Proof. discriminate. Qed.
 
 (** ---- the general theorems at the pinned facts --------------------------------------- *)
-Lemma equiv_pinned (F : facts) : F = fixed_facts ->
+Lemma equiv_pinned (ia : ia_kind) (ut : ut_kind) (F : facts) : F = C07_facts ia ut ->
   forall (V : Type) (vzero : V) (vadd vmul : V -> V -> V)
          (isem : lang -> fnid -> list V -> option V) (translates : fnid -> bool)
          (fsem : fnid -> list V -> option V),
@@ -31,19 +32,22 @@ Lemma equiv_pinned (F : facts) : F = fixed_facts ->
     L <> Jl ->
     generate V translates F L m order free = GOk p ->
     NoDup (map fst (m_par m)) ->
-    NoAssignedParams V m -> EveryVariableHasReaction V m -> m_var m <> [] ->
+    NoAssignedParams V m \/ ia = IaFrozen ->
+    EveryVariableHasReaction V m \/ (ut = UtZero /\ HasEquation V m) ->
+    m_var m <> [] ->
     CoefArgsKnown V m -> ValidOrder V m order ->
     Resolved V fsem m free fv t y e ->
     exists ds, map_opt (dxdt V vzero vadd vmul fsem m e) (m_var m) = Some ds
                /\ exec V vzero vadd vmul isem F L p t y fv = ROk ds.
 Proof.
   intros -> V vzero vadd vmul isem translates fsem C06 L m order free p t y fv e HL Hgen ND NoIA EVR Hne CAK VO R.
-  eapply (equiv_generic V vzero vadd vmul isem translates fsem C06 fixed_facts L); try eassumption;
+  eapply (equiv_generic V vzero vadd vmul isem translates fsem C06 (C07_facts ia ut) L); try eassumption;
     try (destruct L; try reflexivity; contradiction).
   unfold ret_ok. destruct L; try contradiction; cbn; destruct (m_var m); try congruence; cbn; lia.
 Qed.
 
-Lemma generates_pinned (F : facts) : F = fixed_facts ->
+Lemma generates_pinned (ia : ia_kind) (ut : ut_kind) (F : facts) :
+  ia <> IaUnknown -> ut <> UtUnknown -> F = C07_facts ia ut ->
   forall (V : Type) (translates : fnid -> bool) (L : lang) (m : cmodel V) (order free : list name),
     NoDup (map fst (m_par m)) -> NoDup free -> incl free (map fst (base_params V m)) ->
     (forall n f a, In (n, (f, a)) (m_der m) -> translates f = true) ->
@@ -51,10 +55,11 @@ Lemma generates_pinned (F : facts) : F = fixed_facts ->
        translates f = true /\ forall x g ga, In (x, CDyn g ga) st -> translates g = true) ->
     exists p, generate V translates F L m order free = GOk p.
 Proof.
-  intros -> V translates L m order free. apply generates_generic; destruct L; reflexivity.
+  intros Hia Hut -> V translates L m order free.
+  apply generates_generic; destruct ia, ut, L; try reflexivity; congruence.
 Qed.
 
-Lemma untranslatable_pinned (F : facts) : F = fixed_facts ->
+Lemma untranslatable_pinned (ia : ia_kind) (ut : ut_kind) (F : facts) : F = C07_facts ia ut ->
   forall (V : Type) (translates : fnid -> bool) (L : lang) (m : cmodel V) (order free : list name),
     NoDup (map fst (m_der m) ++ map fst (m_rxn m)) ->
     incl (map fst (m_der m) ++ map fst (m_rxn m)) order ->
@@ -64,20 +69,20 @@ Lemma untranslatable_pinned (F : facts) : F = fixed_facts ->
     forall p, generate V translates F L m order free <> GOk p.
 Proof.
   intros -> V translates L m order free ND Hc Hbad p Hgen.
-  destruct (untranslatable_generic V translates fixed_facts L m order free p eq_refl Hgen ND Hc) as [Hd Hr].
+  destruct (untranslatable_generic V translates (C07_facts ia ut) L m order free p eq_refl Hgen ND Hc) as [Hd Hr].
   destruct Hbad as [(n & f & a & H & Hf)|[(n & f & a & st & H & Hf)|(n & f & a & st & x & g & ga & H & Hx & Hf)]].
   - rewrite (Hd n f a H) in Hf. discriminate.
   - rewrite (proj1 (Hr n f a st H)) in Hf. discriminate.
   - rewrite (proj2 (Hr n f a st H) x g ga Hx) in Hf. discriminate.
 Qed.
 
-Lemma again_pinned (F : facts) : F = fixed_facts ->
+Lemma again_pinned (ia : ia_kind) (ut : ut_kind) (F : facts) : F = C07_facts ia ut ->
   forall (V : Type) (translates : fnid -> bool) (L : lang) (m : cmodel V) (order free : list name),
     cache_after V F m free = base_params V m
     /\ generate_again V translates F L m order free = generate V translates F L m order free.
 Proof. intros -> V translates L m order free. now apply again_generic. Qed.
 
-Lemma jl_illformed_pinned (F : facts) : F = fixed_facts ->
+Lemma jl_illformed_pinned (ia : ia_kind) (ut : ut_kind) (F : facts) : F = C07_facts ia ut ->
   forall (V : Type) (vzero : V) (vadd vmul : V -> V -> V)
          (isem : lang -> fnid -> list V -> option V) (translates : fnid -> bool)
          (m : cmodel V) (order free : list name) (p : program V) (t : V) (y fv : list V),
@@ -86,6 +91,16 @@ Lemma jl_illformed_pinned (F : facts) : F = fixed_facts ->
 Proof.
   intros -> V vzero vadd vmul isem translates m order free p t y fv. now apply splat_illformed.
 Qed.
+
+(** a computed coefficient is emitted as the EXPRESSION over its argument names -- never as the
+    number it has at the stored parameter values -- whatever its arguments are *)
+Lemma coef_expression_pinned (F : facts) :
+  forall (V : Type) (translates : fnid -> bool) (L : lang) (m : cmodel V) (order free : list name)
+         (p : program V) n f a st x g ga,
+    generate V translates F L m order free = GOk p ->
+    In (n, (f, a, st)) (m_rxn m) -> In (x, CDyn g ga) st ->
+    exists ts, In (lhs_of (lf_of F L) (PD x), RSum ts) (g_body p) /\ In (n, CDyn g ga) ts.
+Proof. intros V translates L m order free p n f a st x g ga. apply coef_expression_generic. Qed.
 
 (** ---- witnesses ------------------------------------------------------------------------ *)
 Open Scope Q_scope.
@@ -108,7 +123,8 @@ Definition w_env : env Q := fun n =>
 Lemma isemQ_C06 : forall L f vs v, translatesQ f = true -> fsemQ f vs = Some v -> isemQ L f vs = Some v.
 Proof. intros L f vs v Ht Hv. unfold isemQ. now rewrite Ht. Qed.
 
-Lemma nonvacuous (F : facts) : F = fixed_facts ->
+Lemma nonvacuous (ia : ia_kind) (ut : ut_kind) (F : facts) :
+  ia <> IaUnknown -> ut <> UtUnknown -> F = C07_facts ia ut ->
   NoDup (map fst (m_par w_model)) /\ NoAssignedParams Q w_model
   /\ EveryVariableHasReaction Q w_model /\ m_var w_model <> []
   /\ CoefArgsKnown Q w_model /\ ValidOrder Q w_model w_order
@@ -117,8 +133,8 @@ Lemma nonvacuous (F : facts) : F = fixed_facts ->
         generateQ F L w_model w_order [11%N] = GOk p
         /\ outcome_eqb (execQ F L p 1 [1; 2] [3]) (ROk [-32; 224]) = true).
 Proof.
-  intros ->. split; [repeat constructor; cbn; tauto|].
-  split; [intros n ia v H; cbn in H; destruct H as [H|[]]; now injection H as _ <- _|].
+  intros Hia Hut ->. split; [repeat constructor; cbn; tauto|].
+  split; [intros n ia' v H; cbn in H; destruct H as [H|[]]; now injection H as _ <- _|].
   split; [intros x H; cbn in H; destruct H as [<-|[<-|[]]]; vm_compute; discriminate|].
   split; [discriminate|].
   split.
@@ -132,48 +148,159 @@ Proof.
     vm_compute. repeat split; intros z Hz; cbn in Hz; tauto. }
   split.
   { constructor; try reflexivity.
-    - intros n ia v H Hn. cbn in H. destruct H as [H|[]]. injection H as <- _ _. exfalso. apply Hn. now left.
+    - intros n ia' v H Hn. cbn in H. destruct H as [H|[]]. injection H as <- _ _. exfalso. apply Hn. now left.
     - intros n f a H. cbn in H. destruct H as [H|[H|[H|[]]]]; injection H as <- <- <-; vm_compute; reflexivity.
     - intros n f a st H. cbn in H. destruct H as [H|[H|[]]]; injection H as <- <- <- <-; vm_compute; reflexivity.
     - intros n f a st x g ga H Hx. cbn in H. destruct H as [H|[H|[]]]; injection H as <- <- <- <-; cbn in Hx.
       + destruct Hx as [Hx|[]]. discriminate.
       + destruct Hx as [Hx|[Hx|[]]]; [discriminate|]. injection Hx as <- <- <-. eexists. vm_compute. reflexivity. }
-  intros L HL. destruct L; try contradiction; eexists; (split; [vm_compute; reflexivity|vm_compute; reflexivity]).
+  intros L HL. destruct ia, ut; try congruence;
+    destruct L; try contradiction; eexists; (split; [vm_compute; reflexivity|vm_compute; reflexivity]).
 Qed.
 
-(** -- recorded findings: behaviour of the CURRENT code (facts = fixed_facts) ------------- *)
+(** -- recorded findings / their repairs: the behaviour under each value of the switchable facts -- *)
 
 (** a variable without any reaction is dropped from the returned list *)
 Definition w_uncovered : cmodel Q :=
   mkCM [(11%N, (false, 2))] [12%N; 13%N] []
        [(14%N, (4%N, [11%N; 12%N], [(12%N, CStat (-1))]))].
 
-Lemma uncovered_refuted (F : facts) : F = fixed_facts ->
-  exists p, generateQ F Ts w_uncovered [14%N] [] = GOk p
+Lemma uncovered_refuted (ia : ia_kind) : ia <> IaUnknown ->
+  exists p, generateQ (C07_facts ia UtDropped) Ts w_uncovered [14%N] [] = GOk p
             /\ optlist_eqb (spec_rhs w_uncovered [14%N] [] [] 0 [3; 5]) (Some [-6; 0]) = true
-            /\ outcome_eqb (execQ F Ts p 0 [3; 5] []) (ROk [-6]) = true.
-Proof. intros ->. eexists. repeat split; vm_compute; reflexivity. Qed.
+            /\ outcome_eqb (execQ (C07_facts ia UtDropped) Ts p 0 [3; 5] []) (ROk [-6]) = true.
+Proof. intros H. destruct ia; try congruence; eexists; repeat split; vm_compute; reflexivity. Qed.
+
+(** ... and gets the explicit zero once the generator writes it: one derivative per variable *)
+Lemma untouched_zero (ia : ia_kind) : ia <> IaUnknown ->
+  forall L, L <> Jl ->
+  exists p, generateQ (C07_facts ia UtZero) L w_uncovered [14%N] [] = GOk p
+            /\ optlist_eqb (spec_rhs w_uncovered [14%N] [] [] 0 [3; 5]) (Some [-6; 0]) = true
+            /\ outcome_eqb (execQ (C07_facts ia UtZero) L p 0 [3; 5] []) (ROk [-6; 0]) = true.
+Proof.
+  intros H L HL. destruct ia; try congruence; destruct L; try contradiction;
+    eexists; repeat split; vm_compute; reflexivity.
+Qed.
+
+(** variables, but no reaction acts on anything: diff_eqs is empty and the return list is the unit
+    `()` wrapped by the template -- under every value of the switchable facts *)
+Definition w_noeq : cmodel Q := mkCM [(11%N, (false, 2))] [12%N] [(13%N, (4%N, [11%N; 12%N]))] [].
+
+Lemma noeq_refuted (ia : ia_kind) (ut : ut_kind) (F : facts) :
+  ia <> IaUnknown -> ut <> UtUnknown -> F = C07_facts ia ut ->
+  exists p, generateQ F Ts w_noeq [13%N] [] = GOk p
+            /\ optlist_eqb (spec_rhs w_noeq [13%N] [] [] 0 [3]) (Some [0]) = true
+            /\ execQ F Ts p 0 [3] [] = RIllFormed
+            /\ exists p', generateQ F Py w_noeq [13%N] [] = GOk p' /\ execQ F Py p' 0 [3] [] = RJunk.
+Proof.
+  intros Hia Hut ->. destruct ia, ut; try congruence;
+    (eexists; repeat split; try (vm_compute; reflexivity); eexists; split; vm_compute; reflexivity).
+Qed.
 
 (** a parameter defined by an initial assignment is never emitted: its readers are unbound *)
 Definition w_assigned : cmodel Q :=
   mkCM [(11%N, (false, 2)); (12%N, (true, 4))] [13%N] []
        [(14%N, (4%N, [12%N; 13%N], [(13%N, CStat (-1))]))].
 
-Lemma assigned_refuted (F : facts) : F = fixed_facts ->
-  exists p, generateQ F Py w_assigned [12%N; 14%N] [] = GOk p
+Lemma assigned_refuted (ut : ut_kind) : ut <> UtUnknown ->
+  exists p, generateQ (C07_facts IaDropped ut) Py w_assigned [12%N; 14%N] [] = GOk p
             /\ optlist_eqb (spec_rhs w_assigned [12%N; 14%N] [] [] 0 [3]) (Some [-12]) = true
-            /\ execQ F Py p 0 [3] [] = RErrUnbound.
-Proof. intros ->. eexists. repeat split; vm_compute; reflexivity. Qed.
+            /\ execQ (C07_facts IaDropped ut) Py p 0 [3] [] = RErrUnbound.
+Proof. intros H. destruct ut; try congruence; eexists; repeat split; vm_compute; reflexivity. Qed.
+
+(** ... and is emitted with the value the model holds once the generator adds the missing names *)
+Lemma assigned_emitted (ut : ut_kind) : ut <> UtUnknown ->
+  forall L, L <> Jl ->
+  exists p, generateQ (C07_facts IaFrozen ut) L w_assigned [12%N; 14%N] [] = GOk p
+            /\ optlist_eqb (spec_rhs w_assigned [12%N; 14%N] [] [] 0 [3]) (Some [-12]) = true
+            /\ outcome_eqb (execQ (C07_facts IaFrozen ut) L p 0 [3] []) (ROk [-12]) = true.
+Proof.
+  intros H L HL. destruct ut; try congruence; destruct L; try contradiction;
+    eexists; repeat split; vm_compute; reflexivity.
+Qed.
 
 (** a model without variables: the unit `()` wrapped by the return template is `[()]` *)
 Definition w_novars : cmodel Q := mkCM [(11%N, (false, 2))] [] [(12%N, (0%N, [11%N]))] [].
 
-Lemma novars_refuted (F : facts) : F = fixed_facts ->
+Lemma novars_refuted (ia : ia_kind) (ut : ut_kind) (F : facts) :
+  ia <> IaUnknown -> ut <> UtUnknown -> F = C07_facts ia ut ->
   exists p, generateQ F Ts w_novars [12%N] [] = GOk p
             /\ optlist_eqb (spec_rhs w_novars [12%N] [] [] 0 []) (Some []) = true
             /\ execQ F Ts p 0 [] [] = RIllFormed
             /\ exists p', generateQ F Py w_novars [12%N] [] = GOk p' /\ execQ F Py p' 0 [] [] = RJunk.
-Proof. intros ->. eexists. repeat split; try (vm_compute; reflexivity). eexists. split; vm_compute; reflexivity. Qed.
+Proof.
+  intros Hia Hut ->. destruct ia, ut; try congruence;
+    (eexists; repeat split; try (vm_compute; reflexivity); eexists; split; vm_compute; reflexivity).
+Qed.
+
+(** -- the widened guards are not vacuous: an assignment-defined parameter AND a variable no
+       reaction acts on, under the repaired facts ------------------------------------------------ *)
+(** par n11 = 2; par n12 := (assignment) 4; vars n13 n14; rxn n15 = n12 * n13 {n13: -1} *)
+Definition w_both : cmodel Q :=
+  mkCM [(11%N, (false, 2)); (12%N, (true, 4))] [13%N; 14%N] []
+       [(15%N, (4%N, [12%N; 13%N], [(13%N, CStat (-1))]))].
+Definition w_both_env : env Q := fun n =>
+  match n with 0%N => 0 | 11%N => 2 | 12%N => 4 | 13%N => 3 | 14%N => 5 | 15%N => 12 | _ => 0 end.
+
+Lemma nonvacuous_repaired :
+  NoDup (map fst (m_par w_both)) /\ ~ NoAssignedParams Q w_both
+  /\ ~ EveryVariableHasReaction Q w_both /\ HasEquation Q w_both /\ m_var w_both <> []
+  /\ CoefArgsKnown Q w_both /\ ValidOrder Q w_both [12%N; 15%N]
+  /\ Resolved Q fsemQ w_both [] [] 0 [3; 5] w_both_env
+  /\ (forall L, L <> Jl -> exists p,
+        generateQ (C07_facts IaFrozen UtZero) L w_both [12%N; 15%N] [] = GOk p
+        /\ outcome_eqb (execQ (C07_facts IaFrozen UtZero) L p 0 [3; 5] []) (ROk [-12; 0]) = true).
+Proof.
+  split; [repeat constructor; cbn; intuition discriminate|].
+  split; [intros H; specialize (H 12%N true 4 (or_intror (or_introl eq_refl))); discriminate|].
+  split; [intros H; apply (H 14%N); [cbn; tauto|vm_compute; reflexivity]|].
+  split; [exists 15%N, 4%N, [12%N; 13%N], [(13%N, CStat (-1))], 13%N, (CStat (-1)); cbn; tauto|].
+  split; [discriminate|].
+  split.
+  { intros n f a st x g ga H Hx. cbn in H. destruct H as [H|[]]. injection H as <- <- <- <-.
+    cbn in Hx. destruct Hx as [Hx|[]]. discriminate. }
+  split.
+  { split; [|intros z Hz; cbn in Hz; vm_compute; tauto].
+    vm_compute. repeat split; intros z Hz; cbn in Hz; tauto. }
+  split.
+  { constructor; try reflexivity.
+    - intros n ia v H Hn. cbn in H. destruct H as [H|[H|[]]]; injection H as <- _ <-; reflexivity.
+    - intros n f a [].
+    - intros n f a st H. cbn in H. destruct H as [H|[]]. injection H as <- <- <- <-. vm_compute. reflexivity.
+    - intros n f a st x g ga H Hx. cbn in H. destruct H as [H|[]]. injection H as <- <- <- <-.
+      cbn in Hx. destruct Hx as [Hx|[]]. discriminate. }
+  intros L HL. destruct L; try contradiction; eexists; (split; [vm_compute; reflexivity|vm_compute; reflexivity]).
+Qed.
+
+(** -- free parameters reach the right-hand side THROUGH computed coefficients -------------- *)
+(** par n11 = 2; par n12 = 3; var n13; rxn n14 = n13 {n13: n11 * n12}, n11 requested free *)
+Definition w_freecoef : cmodel Q :=
+  mkCM [(11%N, (false, 2)); (12%N, (false, 3))] [13%N] []
+       [(14%N, (0%N, [13%N], [(13%N, CDyn 4%N [11%N; 12%N])]))].
+
+(** for EVERY input q of the free parameter, state y0 and time: the generated function returns
+    (q * 3) * y0 -- the coefficient at the INPUT q, not at the stored value 2 *)
+Lemma free_coef_all_inputs (ia : ia_kind) (ut : ut_kind) (F : facts) :
+  ia <> IaUnknown -> ut <> UtUnknown -> F = C07_facts ia ut ->
+  forall L, L <> Jl -> forall (q y0 t : Q),
+  exists p, generateQ F L w_freecoef [14%N] [11%N] = GOk p
+            /\ execQ F L p t [y0] [q] = ROk [0 + (q * 3) * y0].
+Proof.
+  intros Hia Hut -> L HL q y0 t. destruct ia, ut; try congruence; destruct L; try contradiction;
+    (eexists; split; [vm_compute; reflexivity|reflexivity]).
+Qed.
+
+(** regression witness (seeded change C07-1): a generator that takes the stoichiometries from the
+    model's cache emits the coefficient as the number 6 = 2 * 3; called with n11 = 5 it returns
+    6 * y0 where the model returns 15 * y0 *)
+Lemma cache_evaluated_coefficient_refuted (ia : ia_kind) (ut : ut_kind) (F : facts) :
+  ia <> IaUnknown -> ut <> UtUnknown -> F = C07_facts ia ut ->
+  exists p, generateQ F Py (freeze_par_coefs w_freecoef) [14%N] [11%N] = GOk p
+            /\ optlist_eqb (spec_rhs w_freecoef [14%N] [11%N] [5] 0 [1]) (Some [15]) = true
+            /\ outcome_eqb (execQ F Py p 0 [1] [5]) (ROk [6]) = true.
+Proof.
+  intros Hia Hut ->. destruct ia, ut; try congruence; eexists; repeat split; vm_compute; reflexivity.
+Qed.
 
 (** -- repaired defects: with the facts of the snapshot the property fails ----------------- *)
 
